@@ -80,6 +80,11 @@ def step' (w : W) (line : String) : W × String :=
       let w := apply w k [.alloc, .register]
       fin { w with conns := (toNat! id, k, (getSlot w k).gen) :: w.conns } "ok"
   | ["gate", _] => fin w "ok"
+  -- real-Wait mode: the loop's own fetch / dispatch / free arrive as the ordinary `fetch` / `dispatch` / `endbatch` lines
+  | ["waitstart"] => fin w "ok"
+  | ["waitstop"] => fin w "ok"
+  | ["waitend"] => fin w "ok"
+  | ["waitround", _, _, _, _] => fin w "ok"
   | ["dispatchall", l] =>
     -- ONE handler call for the rest of the batch: items `k` (the model decides run / skip), `k:hupf` / `k:hupd` (hang-up delivered at
     -- once: full teardown by the hang-up goroutine / operator left detached for the user's Close), `k:hupg` (delivered, its
